@@ -3,6 +3,7 @@
 package sgen
 
 import (
+	"fmt"
 	"math"
 	"sort"
 
@@ -55,9 +56,10 @@ func OperandValues() []any {
 		int64(0), int64(1), int64(-1), int64(2), int64(-2), int64(7),
 		int64(1) << 53, -(int64(1) << 53), int64(1)<<53 + 1, -(int64(1)<<53 + 1), int64(math.MaxInt64), int64(math.MinInt64),
 		0.0, math.Copysign(0, -1), 0.5, -2.5, float64(int64(1) << 53), 1e308, math.Inf(1), math.NaN(),
-		"", "a", "ab", "1",
-		[]any{}, []any{int64(1)}, []any{1.0}, []any{"a"},
-		map[string]any{}, map[string]any{"a": int64(1)},
+		"", "a", "ab", "1", "a\U0001F600",
+		[]any{}, []any{int64(1)}, []any{1.0}, []any{"a"}, []any{nil},
+		map[string]any{}, map[string]any{"a": int64(1)}, map[string]any{"a": nil}, map[string]any{"b": int64(7)}, map[string]any{"a": nil, "k": int64(1)}, map[string]any{"b": nil, "k": int64(1)},
+		[]any{map[string]any{"a": nil}}, []any{map[string]any{"b": int64(0)}},
 	}
 }
 
@@ -94,15 +96,28 @@ func Class(v any) string {
 		if x == "" {
 			return "str-empty"
 		}
+		for _, r := range x {
+			if r > 0xFFFF {
+				return "str-astral"
+			}
+		}
 		return "str"
 	case []any:
 		if len(x) == 0 {
 			return "list-empty"
 		}
+		if _, ok := x[0].(map[string]any); ok {
+			return "list-of-map"
+		}
 		return "list"
 	case map[string]any:
 		if len(x) == 0 {
 			return "map-empty"
+		}
+		for _, v := range x {
+			if v == nil {
+				return fmt.Sprintf("map-nil-valued-%d", len(x))
+			}
 		}
 		return "map"
 	}
